@@ -21,6 +21,8 @@ Decided (clang AST of all engine TUs; all-paths exploration with correlated pred
   R-CAPACITY       every decision (if / loop / ?: condition) that reads `scn->maxgeom` or a local computed from it lies in a
                    validated slot producer, or one of its arms reports (non-zero store to scn->status / no-return error call);
                    the capacity leaving a function any other way is exit 2 (cannot be followed)
+  R-STATUS-INPUT   `scn->status` is read in a decision only inside the slot producer (warn once): the scene content does not
+                   depend on an earlier overflow
   R-INDEX-BOUND    every subscript of a fixed-extent flag array of mjvOption ({geom,site,joint,tendon,actuator,flex,skin}group,
                    flags): interval evaluation of the index under the guards of the site (clamp macros, helpers, early
                    returns, counting loops) gives a range inside [0, extent-1]; decayed passes followed into callees
@@ -361,6 +363,31 @@ def run(res, tier):
     if not any(c["function"] in acquires for c in capd):
         raise AnalysisError("no capacity decision found inside the validated slot producers: the capacity test has moved")
 
+    # ------------------------------------------------------------------ R-STATUS-INPUT
+    res.rule("R-STATUS-INPUT", "scn->status is an output: outside the slot producer (which reads it to warn once) no decision depends on "
+             "it, directly or through a local — otherwise what a scene holds depends on whether an earlier update overflowed, not "
+             "only on model, data and options", floor=1)
+    std = [dict(c, tu=tu) for tu, f in sorted(facts.items()) for c in f.get("statusreads", [])]
+    nth = {}
+    for c in std:
+        f = c["function"]
+        nth[(f, c["kind"])] = nth.get((f, c["kind"]), 0) + 1
+        key = f"{f}:status-{c['kind']}#{nth[(f, c['kind'])]}"
+        if f in acquires:
+            res.ok("R-STATUS-INPUT", key, {"file": c["file"], "line": c["line"], "expr": c["expr"], "where": "slot producer"})
+        elif c["kind"] == "cond" and c.get("inert"):
+            res.ok("R-STATUS-INPUT", key, {"file": c["file"], "line": c["line"], "expr": c["expr"], "where": "reporting only"})
+        elif c["kind"] == "cond":
+            res.bad("R-STATUS-INPUT", key, c["file"], c["line"],
+                    f"`{c['expr']}` in {f} decides on scn->status, which only makeScene / freeScene reset: after one overflowing update "
+                    f"every later update of the same scene takes this branch, so the scene is no longer a function of model, data and "
+                    f"options")
+        else:
+            raise AnalysisError(f"{c['file']}:{c['line']}: scn->status leaves {f} through `{c['expr']}` (not a decision, not inside a "
+                                f"slot producer): R-STATUS-INPUT cannot follow it")
+    if not any(c["function"] in acquires for c in std):
+        raise AnalysisError("the slot producer no longer reads scn->status (warning-once test): the status protocol has moved")
+
     # ------------------------------------------------------------------ R-INDEX-BOUND
     res.rule("R-INDEX-BOUND", "every subscript of a fixed-extent flag array of mjvOption (group tables, flags) has an index whose "
              "interval under the guards of the site lies inside [0, extent-1] (interval evaluation of the index expression; "
@@ -516,6 +543,9 @@ MUTANTS = [
      "rule=R-CAPACITY construct=addConnector:capacity-cond#1"),
     ("private-capacity-test-local", [(VIS, _CONN, "  int room = scn->maxgeom - scn->ngeom;\n  if (room < 1) {\n    return;\n  }\n" + _CONN)],
      "rule=R-CAPACITY construct=addConnector:capacity-cond#1"),
+    ("status-early-out", [(VIS, _RESET, _RESET + "  if (scn->status) {\n    return;\n  }\n")],
+     "rule=R-STATUS-INPUT construct=mjv_updateScene:status-cond#1"),
+    ("ctl-status-report-only", [(VIS, _RESET, _RESET + "  if (scn->status) {\n    mju_warning(\"scene was full\");\n  }\n")], None),
     ("group-clamp-off-by-one", [(VIS, "    if (!vopt->sitegroup[mjMAX(0, mjMIN(mjNGROUP-1, m->site_group[i]))]) {",
                                  "    if (!vopt->sitegroup[mjMAX(0, mjMIN(mjNGROUP, m->site_group[i]))]) {")],
      "rule=R-INDEX-BOUND construct="),
